@@ -256,12 +256,15 @@ def check_zero_helper(ctx: Ctx):
             n = prm.name.lower()
             if "pair" in n:
                 args[prm.name] = pair
-            elif "edge" in n:
+            elif n == "edge_case_handler":
                 args[prm.name] = Sym("ECH")
-            elif "global" in n:
+            elif n == "global_metrics":
                 args[prm.name] = Sym("GLOBAL_METRICS")
-            elif "metric" in n:
+            elif "metric" in n and "global" not in n and "edge" not in n:
                 args[prm.name] = metrics[:3]
+            else:
+                # any further setting the helper receives: a value of its own, to be handed on under its own name
+                args[prm.name] = Sym("ARG_" + prm.name)
         it = ZeroRatInterp(prog, f, dict(args), metrics=metrics, prefix=prefix)
         it.root.no_inline = {rinit.qual}
         holder.append(pair)
@@ -348,6 +351,10 @@ def check_zero_helper(ctx: Ctx):
                 ("configured edge-case handler passed on", kw.get("edge_case_handler") == Sym("ECH")),
                 ("global metric selection passed on", kw.get("global_metrics") == Sym("GLOBAL_METRICS")),
             ]
+            # every other setting the helper receives and the result constructor knows by the same name
+            for prm in f.call_params:
+                if prm.name in {x.name for x in rinit.call_params} and prm.name not in ("edge_case_handler", "global_metrics") and not evaluated:
+                    checks.append((f"setting {prm.name} passed on under its own name", kw.get(prm.name) == Sym("ARG_" + prm.name)))
             for desc, ok in checks:
                 if not ok:
                     bad.setdefault(desc, []).append((p, r))
